@@ -40,6 +40,8 @@ use std::sync::Mutex;
 mod common;
 #[path = "c07/mutate.rs"]
 mod mutate;
+#[path = "c08/cliconf.rs"]
+mod cliconf;
 #[path = "c08/project.rs"]
 mod project;
 #[path = "c08/project_worker.rs"]
@@ -778,6 +780,63 @@ fn stress_stream(rep: &mut Report, cases: &[Value]) {
     w.close();
 }
 
+// ---- the CLI-config stream: the real built binary on configuration texts × file sets
+
+/// make sure the binary at `cli` is built from /repo's working tree (`./check` builds it only for properties whose
+/// config says `needs_cli`; an up-to-date build is a no-op of ~0.1 s). Returns a note when the stream cannot run.
+fn ensure_cli(cli: &str) -> Result<u64, String> {
+    let path = std::path::Path::new(cli);
+    let target = path.parent().and_then(|d| d.parent()).filter(|_| path.ends_with("debug/nitrogql-cli")).ok_or_else(|| format!("--cli {cli:?} is not <target>/debug/nitrogql-cli"))?;
+    let t0 = std::time::Instant::now();
+    let out = Command::new("cargo").args(["build", "--offline", "-p", "nitrogql-cli", "--target-dir"]).arg(target).current_dir("/repo").stdin(Stdio::null()).output().map_err(|e| format!("cannot run cargo: {e}"))?;
+    if !out.status.success() {
+        let err = String::from_utf8_lossy(&out.stderr);
+        return Err(format!("building nitrogql-cli failed: {}", err.chars().rev().take(600).collect::<String>().chars().rev().collect::<String>()));
+    }
+    if !path.exists() {
+        return Err(format!("{cli} does not exist after the build"));
+    }
+    Ok(t0.elapsed().as_millis() as u64)
+}
+
+fn cli_stream(rep: &mut Report, args: &Args, cases: &[Value]) {
+    let cli = args.extra.get("cli").cloned().unwrap_or_default();
+    match ensure_cli(&cli) {
+        Ok(ms) => drop(rep.extra.insert("cli_build_ms".into(), json!(ms))),
+        Err(note) => {
+            rep.notes.push(format!("CLI-config stream not run: {note}"));
+            rep.count_n("cli:not-run", cases.len() as u64);
+            return;
+        }
+    }
+    let scratch = if args.scratch.is_empty() { std::env::temp_dir().to_string_lossy().to_string() } else { args.scratch.clone() };
+    let mut hangs = 0;
+    for c in cases {
+        if hangs >= MAX_HANGS {
+            rep.notes.push("CLI-config stream stopped after repeated hangs".into());
+            break;
+        }
+        rep.evaluations += 1;
+        rep.o_cases += 1;
+        rep.nontrivial(&format!("cli|{}|{}", c["files"], c["args"]));
+        let class = c["class"].as_str().unwrap_or("unclassified");
+        rep.count(&format!("cli:{}", class.split(':').next().unwrap_or("")));
+        for part in class.split(':').skip(1) {
+            rep.count(&format!("cli-{part}"));
+        }
+        match cliconf::run_case(&cli, &scratch, c, &site_class_of) {
+            cliconf::Verdict::Ok(tag) => rep.count(&format!("cli-outcome:{tag}")),
+            cliconf::Verdict::Fail(sig, what) => {
+                if sig.starts_with("hang:") {
+                    hangs += 1;
+                }
+                rep.count("cli-outcome:failure");
+                rep.fail("O", &sig, &format!("{what} ({class})"), c.clone());
+            }
+        }
+    }
+}
+
 // ---- generators of the stress stream
 
 /// edges of a digraph on n nodes from a bit mask (bit i*n+j = edge i → j)
@@ -1085,7 +1144,7 @@ fn corpus_parse() -> Vec<(&'static str, String, String)> {
     v
 }
 
-fn replay(ctx: &mut Ctx, c: &Value) {
+fn replay(ctx: &mut Ctx, args: &Args, c: &Value) {
     match c["stream"].as_str().unwrap_or("") {
         "parse" => {
             let kind = if c["kind"].as_str() == Some("ts") { "ts" } else { "op" };
@@ -1103,6 +1162,7 @@ fn replay(ctx: &mut Ctx, c: &Value) {
         }
         "loader" => loader_stream(ctx.rep, &[c["case"].clone()]),
         "stress" | "project" => stress_stream(ctx.rep, &[c.clone()]),
+        "cli" => cli_stream(ctx.rep, args, &[c.clone()]),
         _ => {}
     }
 }
@@ -1124,7 +1184,7 @@ fn main() {
 
     if let Some(path) = &args.replay {
         let v: Value = serde_json::from_str(&std::fs::read_to_string(path).expect("replay file")).expect("replay json");
-        replay(&mut ctx, &v["case"]);
+        replay(&mut ctx, &args, &v["case"]);
         rep.write(&args);
         return;
     }
@@ -1250,6 +1310,14 @@ fn main() {
     let slow = ctx.slowest.clone();
     let lc = loader_cases(&mut rng, args.budget(500, 5000));
     loader_stream(&mut rep, &lc);
+    // configuration texts × file sets through the real built CLI binary
+    let t_cli = std::time::Instant::now();
+    let mut cc = cliconf::core_rows(&mut rng);
+    cc.extend(cliconf::pairwise_rows(&mut rng));
+    cc.extend(cliconf::random_rows(&mut rng, if search { 1500 } else { args.budget(100, 3000) }));
+    rep.extra.insert("cli_config_cases".into(), json!(cc.len()));
+    cli_stream(&mut rep, &args, &cc);
+    rep.extra.insert("cli_stream_ms".into(), json!(t_cli.elapsed().as_millis() as u64));
     let t_project = std::time::Instant::now();
     // the project stream: several operation files connected by #import, through the CLI's and the loader's composition
     let mut pc = project::systematic_projects(&mut rng, args.thorough() || search);
